@@ -11,10 +11,12 @@ from vlib.gen import graphs as H
 
 PID = "C09"
 TITLE = "Shortest paths are valid edge paths of minimum length"
-LEAN_MODULES = ["Mouette.Props.C09", "Mouette.Props.C09PathMesh"]
+LEAN_MODULES = ["Mouette.Props.C09", "Mouette.Props.C09PathMesh", "Mouette.Props.C09Bridge"]
 REQUIRED_THEOREMS = ["reach_run", "run_terminates", "path_valid", "dijkstra_optimal", "dijkstra_optimal_one",
                      "reachable_iff_walk", "vertex_set_path_valid", "vertex_set_nearest", "popOK_firstMin",
-                     "border_path_nearest", "border_none_iff", "build_path_spec", "path_mesh_segments_are_edges"]
+                     "border_path_nearest", "border_none_iff", "build_path_spec", "path_mesh_segments_are_edges",
+                     "bridge_relax_sp", "bridge_relax_set", "bridge_step_sp", "bridge_step_set", "bridge_init_sp", "bridge_init_set",
+                     "bridge_item_lt_min", "source_step_preserves_invariant"]
 TRUSTED = [
     "Lean 4.33.0 kernel; axioms ⊆ {propext, Classical.choice, Quot.sound}",
     "hand-written model Mouette/Model/Dijkstra.lean (loop of paths.py:72-84 / 178-190 with lazy deletion, back-tracking 86-94 / "
@@ -26,40 +28,73 @@ TRUSTED = [
 ]
 ASSUMPTIONS = ["non-negative weights (the statement's quantifier)", "agreement model/implementation only on the cases of this run",
                "unreachable targets are outside the statement ('every connected pair'): only the error token is compared"]
-RULE = ("random polylines / oriented manifold surfaces / tet meshes (vlib.gen.mesh, incl. disconnected), random start, targets as "
-        "int / list / set / tuple incl. start itself, all vertices, singleton sets, start inside the set, border query; weights "
-        "one / length / dict / Attribute (ints 0..5 incl. zero-weight ties); optional path polyline. Non-trivial = distinct case, "
+RULE = ("random polylines / oriented manifold surfaces / tet meshes (vlib.gen.mesh, incl. disconnected; 5% with integer coordinates "
+        "handed over as ints), random start (int or numpy integer), targets as int / numpy integer / list / set / tuple / ndarray incl. "
+        "start itself, duplicated targets, all vertices, singleton sets, start inside the set, border query; weights one / length / "
+        "dict / Attribute with float, Python-int, numpy-int and fractional (k/4) values incl. zero-weight ties; 20% of the cases run 1-3 "
+        "earlier queries on the SAME mesh object first (histories); optional path polyline. Non-trivial = distinct case, "
         "call returned (no error) and some returned path has at least one edge")
 
 _CACHE = {}
 
 
+def _gen_query(rng, mesh):
+    """one query description (without the mesh)"""
+    nv = len(mesh["V"])
+    start = rng.randrange(nv)
+    r = rng.random()
+    w = rng.choice(["one", "length", "length", "dict", "attr"])
+    q = {"start": start, "w": w, "wseed": rng.randrange(1000), "export": rng.random() < 0.25}
+    if w in ("dict", "attr"):
+        q["wkind"] = rng.choice(["float", "float", "int", "frac", "npint"] if w == "dict" else ["float", "float", "int", "frac"])
+    if rng.random() < 0.12: q["srep"] = "npint"
+    if r < 0.5:
+        q["q"] = "sp"
+        k = rng.choice([1, 1, 2, 3, nv])
+        ts = [rng.randrange(nv) for _ in range(min(k, nv))] if k < nv else list(range(nv))
+        if rng.random() < 0.1: ts.append(start)
+        if rng.random() < 0.05: ts = [start]
+        if len(ts) == 1: q["tform"] = rng.choice(["int", "int", "list", "npint", "ndarray"])
+        else:
+            q["tform"] = rng.choice(["list", "list", "set", "tuple", "ndarray"])
+            if q["tform"] in ("list", "tuple", "ndarray") and rng.random() < 0.2: ts = ts + [ts[0]]      # duplicated target
+        q["targets"] = ts
+    elif r < 0.85 or mesh["kind"] != "surface":
+        q["q"] = "set"
+        k = rng.choice([1, 1, 2, 3, 5])
+        ts = [rng.randrange(nv) for _ in range(k)]
+        if rng.random() < 0.15: ts[rng.randrange(len(ts))] = start
+        q["tform"] = rng.choice(["list", "list", "set", "tuple", "ndarray"])
+        if q["tform"] == "set": ts = sorted(set(ts))
+        elif rng.random() < 0.15: ts = ts + [ts[-1]]
+        q["targets"] = ts
+    else:
+        q["q"] = "border"; q["targets"] = []; q["tform"] = "none"
+    return q
+
+
+def _int_mesh(rng):
+    """small meshes with INTEGER coordinates (handed over as Python ints)"""
+    from vlib.gen import mesh as G
+    if rng.random() < 0.5:
+        V, F = G.grid(rng, rng.randint(2, 4), rng.randint(2, 4), tri=rng.random() < 0.5, jitter=False, flat=True)
+        return {"kind": "surface", "V": [[int(c) for c in v] for v in V], "F": F, "tag": "intgrid", "vint": True}
+    n = rng.randint(3, 9)
+    V = [[rng.randint(-4, 4), rng.randint(-4, 4), rng.randint(-2, 2)] for _ in range(n)]
+    while len({tuple(v) for v in V}) < n:
+        V = [[rng.randint(-6, 6), rng.randint(-6, 6), rng.randint(-2, 2)] for _ in range(n)]
+    E = [[i, i + 1] for i in range(n - 1)] + ([[0, n - 1]] if n > 3 and rng.random() < 0.5 else [])
+    return {"kind": "polyline", "V": V, "E": E, "tag": "intpoly", "vint": True}
+
+
 def cases(rng, tier):
     n = 4000 if tier == "quick" else 12000
     for i in range(n):
-        mesh = H.gen_mesh(rng, tier)
-        nv = len(mesh["V"])
-        start = rng.randrange(nv)
-        r = rng.random()
-        w = rng.choice(["one", "length", "length", "dict", "attr"])
-        case = {"mesh": mesh, "start": start, "w": w, "wseed": rng.randrange(1000), "export": rng.random() < 0.25}
-        if r < 0.5:
-            case["q"] = "sp"
-            k = rng.choice([1, 1, 2, 3, nv])
-            ts = [rng.randrange(nv) for _ in range(min(k, nv))] if k < nv else list(range(nv))
-            if rng.random() < 0.1: ts.append(start)
-            case["tform"] = rng.choice(["int", "list"]) if len(ts) == 1 else rng.choice(["list", "set", "tuple"])
-            case["targets"] = ts
-        elif r < 0.85 or mesh["kind"] != "surface":
-            case["q"] = "set"
-            k = rng.choice([1, 1, 2, 3, 5])
-            ts = [rng.randrange(nv) for _ in range(k)]
-            if rng.random() < 0.15: ts[rng.randrange(len(ts))] = start
-            case["tform"] = rng.choice(["list", "list", "set", "tuple"])
-            if case["tform"] == "set": ts = sorted(set(ts))
-            case["targets"] = ts
-        else:
-            case["q"] = "border"; case["targets"] = []; case["tform"] = "none"
+        mesh = _int_mesh(rng) if rng.random() < 0.05 else H.gen_mesh(rng, tier)
+        case = dict(_gen_query(rng, mesh), mesh=mesh)
+        if rng.random() < 0.2:
+            # history: earlier queries on the SAME mesh object (connectivity caches, attributes left on the mesh)
+            case["pre"] = [_gen_query(rng, mesh) for _ in range(rng.choice([1, 1, 2, 3]))]
         yield case
     if tier != "quick":
         # small scope, exhaustively: every start, all vertices as targets, every weight mode; every start x singleton / pair sets
@@ -80,67 +115,108 @@ def cases(rng, tier):
 # running the real implementation
 # ------------------------------------------------------------------------------------------------
 def _targets_arg(case):
+    import numpy as np
     ts = case["targets"]
     f = case["tform"]
     if f == "int": return int(ts[0])
+    if f == "npint": return np.int64(ts[0])
+    if f == "ndarray": return np.array(ts, dtype=np.int64)
     if f == "set": return set(ts)
     if f == "tuple": return tuple(ts)
     return list(ts)
 
 
-def _run(case):
-    """Returns dict(obs): r = 'ok' | err token; paths {t: [...]}; ind; pm = polyline (verts, edges) if exported;
-    and the request graph (impl edges with exact weights)."""
+def _custom_weight(a, b, q):
+    """exact custom weight of edge {a,b} for a query description (shared by harness and oracle)"""
+    if q.get("wkind") == "frac": return Fraction(H.hash_weight(a, b, q["wseed"], 9), 4)
+    return Fraction(H.hash_weight(a, b, q["wseed"]))
+
+
+def _weights_arg(m, edges, q, name):
+    """(argument for the implementation, exact weight per implementation edge)"""
+    import numpy as np
     import mouette as M
+    wmode = q["w"]
+    if wmode == "one": return "one", [Fraction(1)] * len(edges)
+    if wmode == "length":
+        return "length", [Fraction(float(M.geometry.distance(m.vertices[a], m.vertices[b]))) for a, b in edges]
+    wl = [_custom_weight(a, b, q) for a, b in edges]
+    kind = q.get("wkind", "float")
+    conv = {"float": float, "frac": float, "int": int, "npint": lambda x: np.int64(int(x))}[kind]
+    if wmode == "dict":
+        return {e: conv(wl[e]) for e in range(len(edges))}, wl
+    attr = m.edges.create_attribute(name, int if kind == "int" else float, dense=(q["wseed"] % 2 == 0))
+    for e in range(len(edges)): attr[e] = conv(wl[e])
+    return attr, wl
+
+
+def _call(m, edges, q, name):
+    """run one query on mesh object m; returns (result dict, exact weights)"""
+    import numpy as np
     from mouette.processing import paths as P
-    key = json.dumps(case, sort_keys=True)
-    if _CACHE.get("k") == key:
-        return _CACHE["v"]
-    m = H.build(case["mesh"])
-    edges = [(int(a), int(b)) for (a, b) in m.edges]
-    wmode = case["w"]
-    if wmode == "one":
-        weights = "one"; wl = [Fraction(1)] * len(edges)
-    elif wmode == "length":
-        weights = "length"
-        wl = [Fraction(float(M.geometry.distance(m.vertices[a], m.vertices[b]))) for a, b in edges]
-    else:
-        wl = [Fraction(H.hash_weight(a, b, case["wseed"])) for a, b in edges]
-        if wmode == "dict":
-            weights = {e: float(wl[e]) for e in range(len(edges))}
-        else:
-            weights = m.edges.create_attribute("w_c09", float, dense=(case["wseed"] % 2 == 0))
-            for e in range(len(edges)): weights[e] = float(wl[e])
-    out = {"graph": [len(m.vertices), [(a, b, H.frac_str(w)) for (a, b), w in zip(edges, wl)]]}
-    if case["q"] == "border":
-        out["bflags"] = [1 if m.is_edge_on_border(a, b) else 0 for a, b in edges]
+    weights, wl = _weights_arg(m, edges, q, name)
+    start = np.int64(q["start"]) if q.get("srep") == "npint" else q["start"]
+    out = {}
     try:
-        if case["q"] == "sp":
-            res = P.shortest_path(m, case["start"], _targets_arg(case), weights=weights, export_path_mesh=case["export"])
-            if case["export"]: res, pm = res
+        if q["q"] == "sp":
+            res = P.shortest_path(m, start, _targets_arg(q), weights=weights, export_path_mesh=q["export"])
+            if q["export"]: res, pm = res
             out["paths"] = {str(int(t)): [None if v is None else int(v) for v in p] for t, p in res.items()}
-        elif case["q"] == "set":
-            res = P.shortest_path_to_vertex_set(m, case["start"], _targets_arg(case), weights=weights, export_path_mesh=case["export"])
-            if case["export"]: pm = res[2]
+        elif q["q"] == "set":
+            res = P.shortest_path_to_vertex_set(m, start, _targets_arg(q), weights=weights, export_path_mesh=q["export"])
+            if q["export"]: pm = res[2]
             out["ind"] = int(res[0]); out["paths"] = {"set": [int(v) for v in res[1]]}
         else:
-            res = P.shortest_path_to_border(m, case["start"], weights=weights, export_path_mesh=case["export"])
-            if case["export"]: res, pm = res
+            res = P.shortest_path_to_border(m, start, weights=weights, export_path_mesh=q["export"])
+            if q["export"]: res, pm = res
             out["paths"] = {"set": [int(v) for v in res]}
-        if case["export"]:
+        if q["export"]:
             pv = [[H.frac_str(Fraction(float(c))) for c in v] for v in pm.vertices]
             out["pm"] = [pv, [[int(a), int(b)] for (a, b) in pm.edges]]
         out["r"] = "ok"
     except Exception as e:  # noqa
         out["r"] = H.exc_token(e)
         out["msg"] = str(e)[:80]
+    return out, wl
+
+
+def _build(mesh):
+    if not mesh.get("vint"): return H.build(mesh)
+    import mouette as M
+    d = M.mesh.RawMeshData()
+    d.vertices += [M.Vec(*[int(c) for c in v]) for v in mesh["V"]]
+    if mesh["kind"] == "surface":
+        d.faces += [list(f) for f in mesh["F"]]
+        return M.mesh.SurfaceMesh(d)
+    d.edges += [tuple(e) for e in mesh["E"]]
+    return M.mesh.PolyLine(d)
+
+
+def _run(case):
+    """Returns dict(obs): r = 'ok' | err token; paths {t: [...]}; ind; pm = polyline (verts, edges) if exported;
+    and the request graph (impl edges with exact weights). Earlier queries of the history (`pre`) are run first on the
+    same mesh object; what is observed is the LAST query."""
+    key = json.dumps(case, sort_keys=True)
+    if _CACHE.get("k") == key:
+        return _CACHE["v"]
+    m = _build(case["mesh"])
+    edges = [(int(a), int(b)) for (a, b) in m.edges]
+    pre = []
+    for i, q in enumerate(case.get("pre", [])):
+        r, _ = _call(m, edges, q, f"w_c09_pre{i}")
+        pre.append(r["r"])
+    out, wl = _call(m, edges, case, "w_c09")
+    out["graph"] = [len(m.vertices), [(a, b, H.frac_str(w)) for (a, b), w in zip(edges, wl)]]
+    if pre: out["pre"] = pre
+    if case["q"] == "border":
+        out["bflags"] = [1 if m.is_edge_on_border(a, b) else 0 for a, b in edges]
     _CACHE["k"] = key; _CACHE["v"] = out
     return out
 
 
 def impl_observe(case):
     o = dict(_run(case))
-    o.pop("graph", None); o.pop("msg", None)
+    o.pop("graph", None); o.pop("msg", None); o.pop("pre", None); o.pop("bflags", None)
     return json.dumps(o, sort_keys=True)
 
 
@@ -239,7 +315,7 @@ def _oracle_weights(case, E):
     V = case["mesh"]["V"]
     if case["w"] == "one": return [Fraction(1)] * len(E)
     if case["w"] == "length": return [Fraction(math.sqrt(float(H.sq_len(V, a, b)))) for a, b in E]
-    return [Fraction(H.hash_weight(a, b, case["wseed"])) for a, b in E]
+    return [_custom_weight(a, b, case) for a, b in E]
 
 
 def oracle(case):
@@ -267,7 +343,11 @@ def oracle(case):
         connected = (len(reach) == len(targets)) if q == "sp" else bool(reach)
         if connected:
             shape = ("single-target" if len(targets) == 1 else "multi-target") if q != "border" else "border"
-            if o["r"] == "err:Type": tag = f"w={wtag}"
+            nprep = ("targets=" + case["tform"]) if case["tform"] in ("npint", "ndarray") else \
+                    ("start=npint" if case.get("srep") == "npint" else None)
+            if o["r"] == "err:Type" and case["w"] == "one" and not nprep: tag = f"w={wtag}"
+            elif o["r"] == "err:Type" and nprep: tag = nprep + "/" + shape
+            elif o["r"] == "err:Type": tag = f"w={wtag}/{case.get('wkind', '-')}"
             elif o["r"] == "err:Key" and q == "set": tag = shape
             else: tag = f"w={wtag}/{shape}"
             out.append({"key": f"C09/{q}/raises/{o['r']}/{tag}",
@@ -337,6 +417,12 @@ def classify(case, obs):
         ks.append("maxpath:" + ("1" if L == 1 else "2-4" if L <= 4 else ">4"))
     if case["export"]: ks.append("export")
     if "2comp" in case["mesh"].get("tag", ""): ks.append("disconnected")
+    if case["w"] in ("dict", "attr"): ks.append("wkind:" + case.get("wkind", "float"))
+    if case.get("srep"): ks.append("start:npint")
+    if case["q"] != "border" and len(set(case["targets"])) < len(case["targets"]): ks.append("dup-targets")
+    if case["q"] == "sp" and case["targets"] == [case["start"]]: ks.append("start=target")
+    if case.get("pre"): ks.append("history:%d-earlier-queries" % len(case["pre"]))
+    if case["mesh"].get("vint"): ks.append("int-coordinates")
     return ks
 
 
@@ -348,11 +434,22 @@ def describe(case):
 
 def shrink(case, still):
     c = dict(case)
+    if c.get("pre"):
+        trial = {k: v for k, v in c.items() if k != "pre"}
+        if still(trial): c = trial
+        else:
+            while len(c["pre"]) > 1:
+                trial = dict(c, pre=c["pre"][1:])
+                if still(trial): c = trial
+                else: break
+    if c.get("srep"):
+        trial = {k: v for k, v in c.items() if k != "srep"}
+        if still(trial): c = trial
     ts = list(c["targets"])
     i = 0
     while len(ts) > 1 and i < len(ts):
         trial = dict(c, targets=ts[:i] + ts[i + 1:])
-        if trial["tform"] == "int" and len(trial["targets"]) != 1: trial["tform"] = "list"
+        if trial["tform"] in ("int", "npint") and len(trial["targets"]) != 1: trial["tform"] = "list"
         if still(trial): ts = trial["targets"]; c = trial
         else: i += 1
     if c["export"]:
@@ -364,13 +461,19 @@ def shrink(case, still):
             "polyline": {"kind": "polyline", "V": [[0., 0., 0.], [1., 0., 0.], [2., 0., 0.]], "E": [[0, 1], [1, 2]], "tag": "tiny"}}[c["mesh"]["kind"]]
     for st, tg in ((0, [2]), (0, [1, 2]), (0, [2, 1, 0])):
         trial = dict(c, mesh=tiny, start=st, targets=tg[:max(1, len(c["targets"]))] if c["q"] != "border" else [])
-        if trial["tform"] == "int" and len(trial["targets"]) != 1: trial["tform"] = "list"
+        if trial["tform"] in ("int", "npint") and len(trial["targets"]) != 1: trial["tform"] = "list"
+        trial.pop("pre", None)
         if still(trial): return trial
     return c
 
 
 def search_on_break(rng, broken, mismatches):
-    return list(cases(rng, "quick"))[:150]
+    return list(cases(rng, "quick"))[:400]
+
+
+def translate():
+    from . import c09_translate
+    return c09_translate.translate()
 
 
 MANIFEST = {
